@@ -330,8 +330,26 @@ fn gen_tcase(u: &mut Choices) -> TCase {
     let rules = if rules_blank {
         "# only a comment\n\n".to_string()
     } else if rules_broken { "rule chk {\n  a == \n}\n".to_string() } else { "rule chk {\n  a == 1\n}\nrule ok {\n  b == 'x'\n}\nrule sk when zz exists {\n  a == 1\n}\n".to_string() };
+    // a rule name defined twice: SKIP is met only if every definition is SKIP
+    let rules = if !rules_broken && !rules_blank { format!("{}rule d when a == 1 {{\n  b == 'x'\n}}\nrule d when a == 2 {{\n  b == 'x'\n}}\n", rules) } else { rules };
     let spec_kind = *u.pick(&["ok", "ok", "ok", "malformed", "unknown-status"]);
     let mismatch = u.chance(1, 2);
+    // how the doubly defined rule is expected: "PASS" is met on both inputs (a=1: [PASS, SKIP],
+    // a=2: [SKIP, PASS]); "SKIP" is a mismatch on both; "" = no expectation
+    let has_dup = !rules_broken && !rules_blank;
+    // where the single mismatch sits: in `chk`, or in the doubly defined rule only
+    let mismatch_in = if mismatch && has_dup { *u.pick(&["chk", "dup-skip", "dup-fail"]) } else { "chk" };
+    let dup_exp = if !has_dup {
+        ""
+    } else if mismatch {
+        match mismatch_in {
+            "dup-skip" => "SKIP",
+            "dup-fail" => "FAIL",
+            _ => *u.pick(&["PASS", ""]),
+        }
+    } else {
+        *u.pick(&["PASS", ""])
+    };
     let ncases = u.range(1, 3);
     let mut specs = vec![];
     for i in 0..ncases {
@@ -339,9 +357,10 @@ fn gen_tcase(u: &mut Choices) -> TCase {
         let input = if compliant { "{\"a\": 1, \"b\": \"x\"}" } else { "{\"a\": 2, \"b\": \"x\"}" };
         let actual_chk = if compliant { "PASS" } else { "FAIL" };
         let wrong = if compliant { "FAIL" } else { "PASS" };
-        let chk = if mismatch && i == ncases - 1 { wrong } else { actual_chk };
+        let chk = if mismatch && mismatch_in == "chk" && i == ncases - 1 { wrong } else { actual_chk };
         let sk = if spec_kind == "unknown-status" && i == 0 { "MAYBE" } else { "SKIP" };
-        specs.push(format!("{{\"name\": \"t{}\", \"input\": {}, \"expectations\": {{\"rules\": {{\"chk\": \"{}\", \"ok\": \"PASS\", \"sk\": \"{}\"}}}}}}", i, input, chk, sk));
+        let d = if dup_exp.is_empty() { String::new() } else { format!(", \"d\": \"{}\"", dup_exp) };
+        specs.push(format!("{{\"name\": \"t{}\", \"input\": {}, \"expectations\": {{\"rules\": {{\"chk\": \"{}\", \"ok\": \"PASS\", \"sk\": \"{}\"{}}}}}}}", i, input, chk, sk, d));
     }
     let mut spec = format!("[{}]", specs.join(",\n "));
     if spec_kind == "malformed" {
@@ -477,7 +496,7 @@ pub fn replay(case: &J) -> CaseResult {
 
 pub fn run(tier: Tier, seed: u64) -> i32 {
     let spec = EvidenceSpec {
-        rule: "validate: 1-3 rules files of kind {all-PASS, some-FAIL, all-SKIP, blank, syntactically broken (6 shapes) or not UTF-8, evaluation error (3 shapes)} x 1-3 data files of kind {compliant, non-compliant, not applicable (every guarded rule SKIPs), malformed (4 shapes), empty} in generated order (distinct base names in one directory, or the same base name in a directory each) x invocation {plain, --structured json/yaml/junit/sarif, --payload plain/structured, data on stdin, rules and data as directories, a missing path}. The expected exit code is computed from facts established through other code paths: `parse-tree` decides whether a rules text parses, run_checks decides the status of every (rules, data) pair alone; then 0 / 19 / 5 / any non-zero / error-not-0-or-19 by the rule of the property statement. Stage 'validate-binary' runs the same through the real cfn-guard binary (process exit status, `main`'s Err -> 255). test: rules {ok, broken, comment-only} x spec {ok, malformed, unknown status word} x {all expectations met, one mismatch} x {single file, --dir with 0-3 further guard files (sorting before / after, in sub-directories; good, with a mismatch, broken rules, malformed spec, without tests)} x {console, json, yaml, junit}: 0 / 7 / non-zero. Non-trivial: the pairs of the run have at least two different individual outcomes; distinct by hash of all texts and the invocation.".into(),
+        rule: "validate: 1-3 rules files of kind {all-PASS, some-FAIL, all-SKIP, blank, syntactically broken (6 shapes) or not UTF-8, evaluation error (3 shapes)} x 1-3 data files of kind {compliant, non-compliant, not applicable (every guarded rule SKIPs), malformed (4 shapes), empty} in generated order (distinct base names in one directory, or the same base name in a directory each) x invocation {plain, --structured json/yaml/junit/sarif, --payload plain/structured, data on stdin, rules and data as directories, a missing path}. The expected exit code is computed from facts established through other code paths: `parse-tree` decides whether a rules text parses, run_checks decides the status of every (rules, data) pair alone; then 0 / 19 / 5 / any non-zero / error-not-0-or-19 by the rule of the property statement. Stage 'validate-binary' runs the same through the real cfn-guard binary (process exit status, `main`'s Err -> 255). test: rules {ok, broken, comment-only} x spec {ok, malformed, unknown status word} x {all expectations met, one mismatch (in a singly defined rule, or SKIP / FAIL expected for a rule defined twice of which one definition PASSes)} x {single file, --dir with 0-3 further guard files (sorting before / after, in sub-directories; good, with a mismatch, broken rules, malformed spec, without tests)} x {console, json, yaml, junit}: 0 / 7 / non-zero. Non-trivial: the pairs of the run have at least two different individual outcomes; distinct by hash of all texts and the invocation.".into(),
         assumptions: vec!["`well-formed data` for the expectation is decided by serde_yaml accepting the text (the data kinds are chosen so that all loaders agree)".into()],
     };
     execute("C06", tier, seed, spec, &replay, &|run: &Session| {
